@@ -57,6 +57,24 @@ def identity_share(k):
     return f"(ㄱㅇㄱ ㅎ ㅎㄱ ㅎ ㅎㄱ) (ㄱㅇㄱ ㄱㅇㄱ ㄴㅎㄷ ㅎ) ㅎㄴ"
 
 
+SHARE_KINDS = {
+    'int0': "ㄱ", 'int': "ㄷㅈ", 'float0': "(ㄱ ㅅㅅㅎㄴ)", 'true': "(ㅈㅈㅎㄱ)", 'false': "(ㄱㅈㅎㄱ)", 'nil': "(ㅂㄱㅎㄱ)",
+    'str0': "(ㅁㅈㅎㄱ)", 'str': "(ㄷㅈ ㅁㅈㅎㄴ)", 'bytes0': "(" + gen.render(gen.bytes_lit(b"")) + ")", 'bytes': "(" + gen.render(gen.bytes_lit(b"ab")) + ")",
+    'list0': "(ㅁㄹㅎㄱ)", 'list': "(ㄴ ㄷ ㅁㄹㅎㄷ)", 'dict0': "(ㅅㅈㅎㄱ)", 'dict': "(ㄴ ㄷ ㅅㅈㅎㄷ)", 'exc0': "(ㄷㅂㅎㄱ)", 'exc': "(ㄴ ㄷㅂㅎㄴ)",
+    'fn': "(ㄱㅇㄱ ㅎ)", 'complex': "(ㄱ ㄴ ㅂㅅㅎㄷ)",
+    'io-return': "(ㄱ ㄱㅅㅎㄴ)", 'io-print': "(ㅁㅈㅎㄱ ㅈㄹㅎㄴ)", 'io-read': "(ㄹㅎㄱ)", 'io-bind': "((ㄱ ㄱㅅㅎㄴ) ㄱㅅ ㄱㄹㅎㄷ)",
+}
+
+
+def share_kind(seed, k):
+    """e₀ = id(seed);  e_{k+1} = H(e_k) with H = λa. (a == a)(a, a): each level uses its argument four times and
+    returns it, whatever kind of value it is — the work must stay linear in k for every kind of value"""
+    e = f"{seed} (ㄱㅇㄱ ㅎ) ㅎㄴ"
+    for _ in range(k):
+        e = f"({e}) (ㄱㅇㄱ ㄱㅇㄱ (ㄱㅇㄱ ㄱㅇㄱ ㄴㅎㄷ) ㅎㄷ ㅎ) ㅎㄴ"
+    return e
+
+
 def cases(rng, tier):
     n = 800 if tier == 'quick' else 20000
     g = gen.Gen(rng, max_depth=5)
@@ -68,6 +86,10 @@ def cases(rng, tier):
         yield Case(program=doubling(k), mode='events', tag='doubling', monitor='c13_once', data=('doubling', k), timeout=30)
         yield Case(program=fanout(k), mode='events', tag='fanout', monitor='c13_once', data=('fanout', k), timeout=30)
     yield Case(program=identity_share(1), mode='events', tag='identity', monitor='c13_once')
+    for kind, seed in SHARE_KINDS.items():
+        for k in ([1, 2, 4, 9] if tier == 'quick' else [1, 2, 3, 4, 6, 9, 14, 20, 40]):
+            yield Case(program=share_kind(seed, k), mode='events', tag='share-' + kind, monitor='c13_once', data=('share-' + kind, k),
+                       timeout=30, format_io=False)
     # a failing shared expression fails once and is served from the cell afterwards
     for k in [1, 3, 7]:
         elems = " ".join("(ㄱㅇㄱ (ㄱㅇㄱ ㅎ) ㅅㄷㅎㄷ)" for _ in range(k))
@@ -78,7 +100,7 @@ SPEC = {
     'lean': ['C13'],
     'cases': cases,
     'stream': 'C13 observer event stream (DebuggerBase events vs model events)',
-    'rule': 'random typed programs and doubling / fan-out families of depth k (quick: 9 depths ≤ 50, thorough: 1…200), '
+    'rule': 'random typed programs, doubling / fan-out families and share-kind families (a delayed expression of each kind of value — numbers, empty and non-empty strings / bytes / lists / dictionaries / exceptions, Booleans, Nil, functions, every kind of I/O action — used four times per level) of depth k (quick: 9 depths ≤ 50, thorough: 1…200), '
             'run under a passive recording observer: no delayed expression may have two evaluations with children, the '
             'event count of the families must be linear in k, and the event stream must equal the model machine\'s '
             '(same length, kinds, depths, source spans, failure flags). Non-trivial = tree ≥ 8 nodes or a family',
